@@ -570,6 +570,33 @@ func checkC13(c *Ctx) {
 		}
 	}
 
+	// nested association saves run the hooks of a record once per operation: the per-operation visit map
+	// records every value it is asked about, also the first one (when the map is created)
+	{
+		cas := p.FuncDecl(pkgCallbacks, "checkAssociationsSaved")
+		c.Touch(cas)
+		cinfo := cas.Pkg.TypesInfo
+		setM := p.Method(p.Named(pkgGorm, "DB"), "Set")
+		los := p.FuncDecl(pkgCallbacks, "loadOrStoreVisitMap").Obj
+		gsc := p.Guards(cas, nil)
+		nSet := 0
+		for _, call := range callsIn(cas) {
+			if fn, _ := typeutil.Callee(cinfo, call).(*types.Func); fn != setM {
+				continue
+			}
+			nSet++
+			facts, live := gsc.At(call.Pos())
+			rd.Check(live && facts.Has(fCalled(los.FullName())), cas.Name(), "new visit map records the values it was created for", call.Pos(), "loadOrStoreVisitMap runs before the map is published with Set", "the per-operation visit map is stored without recording the records it was created for: a record of the first association slice that is referenced again deeper in the graph is saved a second time and its Before/After hooks fire twice")
+		}
+		usesLOS := false
+		for _, call := range callsIn(cas) {
+			if fn, _ := typeutil.Callee(cinfo, call).(*types.Func); fn == los {
+				usesLOS = true
+			}
+		}
+		rd.Check(nSet >= 1 && usesLOS, cas.Name(), "visit map protocol", cas.Body.Pos(), "look-up in the existing map, or create + record + publish", "checkAssociationsSaved no longer consults / publishes the per-operation visit map")
+	}
+
 	// a hook failing in a later batch of a batched create rolls back the earlier batches too
 	checkBatchBracket(c, rd)
 
